@@ -91,6 +91,46 @@ def run(rep):
     })
     env.update(args)
     env["self"], env["result"] = o, result
+    # quantifiers over the values that occur in the pre-/post-state and the arguments (finitely many candidates): a
+    # candidate that falsifies the body is a genuine witness; if none does the replay is inconclusive
+    pool = {"str": {"", "x"}, "int": {0, 1, -1}, "bytes": {b""}}
+
+    def harvest(v, depth=0):
+        if depth > 4 or isinstance(v, bool) or isinstance(v, Recorder):
+            return
+        if isinstance(v, str):
+            pool["str"].add(v)
+        elif isinstance(v, int):
+            pool["int"].update((v, v + 1, v - 1))
+        elif isinstance(v, bytes):
+            pool["bytes"].add(v)
+        elif isinstance(v, dict):
+            for k_, x_ in list(v.items())[:50]:
+                harvest(k_, depth + 1)
+                harvest(x_, depth + 1)
+        elif isinstance(v, (list, tuple, set, frozenset)) or type(v).__name__ == "deque":
+            for x_ in list(v)[:50]:
+                harvest(x_, depth + 1)
+        elif hasattr(v, "__dict__"):
+            for x_ in list(vars(v).values())[:50]:
+                harvest(x_, depth + 1)
+
+    for v_ in list(args.values()) + [o, result] + list(old.values()):
+        try:
+            harvest(v_)
+        except Exception:
+            pass
+
+    def _cands(f, types):
+        import inspect as _insp
+        import itertools as _it
+        n = len(_insp.signature(f).parameters)
+        tys = list(types) + ["int"] * (n - len(types))
+        doms = [sorted(pool.get(t, pool["int"]), key=repr)[:40] for t in tys[:n]]
+        return _it.islice(_it.product(*doms), 20000)
+
+    env["forall"] = lambda f, *types: all(f(*c) for c in _cands(f, types))
+    env["exists"] = lambda f, *types: any(f(*c) for c in _cands(f, types))
     oldenv = dict(env)
     oldenv.update(old)
     kind, clause = rep.get("kind"), rep.get("clause")
